@@ -9,6 +9,7 @@ RULE = ("Rank-planted problems as in C01; for each algorithm ALL index pairs q_x
         "(GNU_gama::Adj on the original system and the AdjBase classes on the homogenised one) and checked: symmetric, "
         "eigenvalues >= -tol, N Q N = N, Q N Q = Q, Q equal to the numpy reference for the chosen regularisation subset, "
         "q_bb = A Q A' (Adj) resp. an idempotent projector with diagonal in [0,1] and trace = rank (homogenised). "
+        "Part 'large' (and its relatives): graph-structured sparse problems with 10-40 unknowns and up to ~130 rows (connected components in random numbering, weighted difference / second-difference rows, anchored and floating components = exact defects 0..3, zero columns, covariance blocks up to dimension 10 with any band) through the same oracle. "
         "Network part: the <cov-mat> of the XML output equals m0^2 Q for several --cov-band values. "
         "Non-trivial = singular with subset, banded covariance, or n>=4 (elements outside the envelope exist); distinct by sha1.")
 ASSUMPTIONS = ["numpy reference; tolerance 1e-8*cond^2*scale"]
@@ -233,6 +234,10 @@ def oracle_network(c, stats):
 PARTS = [
     Part("cofactors", strategy=lambda: gen_linear.linear_problem(), oracle=oracle,
          nontrivial=lambda c: nontrivial(c) or c["n"] >= 4, n={"quick": 4000, "thorough": 40000}),
+    Part("large", strategy=lambda: gen_linear.graph_problem(max_n=32), oracle=oracle,
+         nontrivial=lambda c: True, n={"quick": 300, "thorough": 5000},
+         sample=lambda c: {"m": c["m"], "n": c["n"], "d": c["d"], "mode": c["mode"], "minx": c["minx"],
+                           "bands": [b["width"] for b in c["blocks"]]}),
     Part("network", strategy=net_case_strategy, oracle=oracle_network, n={"quick": 2500, "thorough": 20000},
          nontrivial=lambda c: c["band"] != -1 or bool(c["net"].get("free")),
          sample=lambda c: {"alg": c["alg"], "band": c["band"], "free": bool(c["net"].get("free"))}),
